@@ -238,6 +238,8 @@ def samplers(res, ctx, rng):
         if has_thd:
             nested.append(H.thd_data(thd[0], thd[1], rng.getrandbits(30), rng.randrange(128)))
         frames = [rng.getrandbits(47) for _ in range(4 * n_data)]
+        if n_data >= 2 and rng.random() < 0.2:
+            frames = [frames[0]] * len(frames)        # deep recursion: the data records of the sample are identical
         # the count may be anything from 0 (whole data records in surplus) to far beyond the data supplied
         nframes = rng.choice((len(frames), max(0, len(frames) - 2), len(frames) + 3, 0, 1, max(0, len(frames) - 4),
                               rng.randrange(len(frames) + 1)))
@@ -319,6 +321,8 @@ def recheck_retained(res):
 
 def run(ctx):
     res = core.Result()
+    import random
+    H.set_clock(random.Random(ctx.seed * 7919 + ctx.shard))      # coarse time base: records may share a tick
     rng = ctx.rng
     faults(res, ctx, rng)
     launches(res, ctx, rng)
